@@ -8,6 +8,7 @@ import (
 	"crypto/sha256"
 	"encoding/hex"
 	"errors"
+	"filippo.io/sunlight/verifharness/internal/realdir"
 	"fmt"
 	"io/fs"
 	"log/slog"
@@ -117,6 +118,10 @@ type seqWorld struct {
 	logbuf       *bytes.Buffer
 
 	graveyard []*ctlog.Log
+	// local, if set, is a real LocalBackend on a scratch directory that every effective upload and discard is also
+	// applied to (family "localcrash"): what the in-memory contract store accepts, the filesystem backend must accept
+	local     *ctlog.LocalBackend
+	localDir  string
 	mute      bool
 	autoClock bool
 }
@@ -248,6 +253,16 @@ func (b *instBackend) Upload(ctx context.Context, key string, data []byte, opts 
 		if opts != nil {
 			o.opts = *opts
 		}
+		if w.local != nil {
+			// write-through, outside the scheduler: the real filesystem backend gets the same call
+			if lerr := w.local.Upload(context.Background(), key, data, opts); lerr != nil {
+				w.mu.Unlock()
+				w.ev("%d upload %s %s %s %s", b.inst, key, sqOptsOf(opts), b.payloadToken(key, data, opts), "localerr")
+				w.orc.fail("C03", "local-backend-refused-upload", "the filesystem backend refused an upload the storage contract allows (key %s, %d bytes, immutable=%v, object existed=%v with equal bytes=%v): %v",
+					key, len(data), opts != nil && opts.Immutable, exists, exists && bytes.Equal(old.data, data), lerr)
+				return fmt.Errorf("upload %s: %w", key, lerr)
+			}
+		}
 		if exists && !bytes.Equal(old.data, data) {
 			if w.versions == nil {
 				w.versions = map[string][]*storedObj{}
@@ -297,6 +312,9 @@ func (b *instBackend) Discard(ctx context.Context, key string) error {
 		}
 		w.versions[key] = append(w.versions[key], gone)
 		delete(w.objects, key)
+		if w.local != nil {
+			w.local.Discard(context.Background(), key)
+		}
 	} else if out == outOK && !ok {
 		res = "nf"
 	}
@@ -481,6 +499,9 @@ func (w *seqWorld) cleanup() {
 	}
 	for _, l := range w.graveyard {
 		l.CloseCache()
+	}
+	if w.localDir != "" {
+		realdir.RemoveAll(w.localDir) // the backend sets the immutable inode flag when it may
 	}
 	os.RemoveAll(w.dir)
 	curWorld = nil
